@@ -74,7 +74,7 @@ def theorems(pid):
     sys_path = os.path.join(V, 'lean', 'Alpaqa', 'Props')
     files = sorted(glob.glob(os.path.join(sys_path, pid + '.lean')) + glob.glob(os.path.join(sys_path, pid + '_*.lean')))
     if pid == 'C01':
-        files += [os.path.join(sys_path, 'PantrNewtonTR.lean'), os.path.join(sys_path, 'ZerofprDirections.lean')]
+        files += [os.path.join(sys_path, 'PantrNewtonTR.lean'), os.path.join(sys_path, 'ZerofprDirections.lean'), os.path.join(sys_path, 'SlbfgsPerCall.lean')]
     if pid == 'C09':
         files += [os.path.join(sys_path, 'Directions.lean'), os.path.join(sys_path, 'DirectionsLoop.lean')]
     lines = []
